@@ -101,7 +101,20 @@ def run(tier, seed, replay=None):
                     else:
                         va = o.derivative(*fa, d=tuple(al), above=tuple(ab_a))
                         vb = o.derivative(*fb, d=tuple(al), above=tuple(ab_b))
-                    res.append((dd, np.asarray(va), np.asarray(vb)))
+                    # the same one-sided limits at other images of the seam (seam + m*period, m outside {0, 1})
+                    m_b = rng.choice([-2, -1, 0, 2, 3])
+                    m_a = rng.choice([-2, -1, 1, 2, 3])
+                    fb2 = list(fb)
+                    fb2[d] = float(s_ + m_b * T)
+                    fa2 = list(fa)
+                    fa2[d] = float(s_ + m_a * T)
+                    if pd == 1:
+                        va2 = o.derivative(fa2[0], d=dd, above=True)
+                        vb2 = o.derivative(fb2[0], d=dd, above=False)
+                    else:
+                        va2 = o.derivative(*fa2, d=tuple(al), above=tuple(ab_a))
+                        vb2 = o.derivative(*fb2, d=tuple(al), above=tuple(ab_b))
+                    res.append((dd, np.asarray(va), np.asarray(vb), np.asarray(va2), np.asarray(vb2), m_a, m_b))
                 ent['seam'] = res
             elif op == 'open_close':
                 opened = o.split(float(s_), d)
@@ -158,14 +171,23 @@ def run(tier, seed, replay=None):
                 V.failure(dict(case, what='L2: evaluation at t and t + z*period differ', t=[str(x) for x in base], t_shifted=[str(x) for x in sh],
                                values=[v0.tolist(), v1.tolist()]))
         elif op == 'seam':
-            for dd, va, vb in c['seam']:
+            for dd, va, vb, va2, vb2, m_a, m_b in c['seam']:
                 sc = max(1.0, np.abs(va).max())
                 if not np.allclose(va, vb, rtol=1e-8, atol=1e-8 * sc):
                     V.failure(dict(case, what='L2: derivative of order %d differs across the seam (periodic continuity %d)' % (dd, b['periodic']),
                                    from_above=va.tolist(), from_below=vb.tolist()))
                     break
+                if not (np.isfinite(va2).all() and np.allclose(va, va2, rtol=1e-8, atol=1e-8 * sc)):
+                    V.failure(dict(case, what='L2: derivative of order %d from above at seam%+d periods differs from the one at the seam' % (dd, m_a),
+                                   at_seam=va.tolist(), at_image=va2.tolist()))
+                    break
+                if not (np.isfinite(vb2).all() and np.allclose(vb, vb2, rtol=1e-8, atol=1e-8 * sc)):
+                    V.failure(dict(case, what='L2: derivative of order %d from below at seam%+d periods differs from the one at the domain end' % (dd, m_b),
+                                   at_end=vb.tolist(), at_image=vb2.tolist()))
+                    break
         elif op == 'open_close':
             tk = outs[e['l1']]
+            l1_agrees = False
             if tk.peek() == 'Err':
                 tk.word()
                 if corr_bad is None:
@@ -173,11 +195,14 @@ def run(tier, seed, replay=None):
             else:
                 tk.word()
                 dfr = O.snaps_differ(c['closed'], O.read_obj(tk))
-                if dfr and corr_bad is None:
-                    corr_bad = dict(case, what='L1: make_periodic result differs from model: ' + dfr)
+                l1_agrees = not dfr
+                if dfr:
+                    # the implementation no longer does what the transcription of make_periodic does: never a known finding
+                    V.failure(dict(case, what='L1: make_periodic result differs from the transcribed model: ' + dfr, l1=True))
             dfr = O.snaps_differ(c['closed'], pre)
             if dfr:
-                V.failure(dict(case, what='L2: opening at the seam and closing again does not give back the object: ' + dfr))
+                V.failure(dict(case, what='L2: opening at the seam and closing again does not give back the object: ' + dfr,
+                               impl_matches_transcription=l1_agrees))
         else:
             tk = outs[e['l1']]
             if tk.peek() == 'Err':
